@@ -109,6 +109,72 @@ def run(ctx):
         import shutil
         shutil.rmtree(d0, ignore_errors=True)
 
+    # 3c. stateful parity: one script of segment states (publications, updates in flight, wiped header,
+    # restarts), client opens and calls, replayed through both libraries; outputs must be identical.
+    rng2 = random.Random(ctx.seed * 31 + 7)
+    script = []
+    gen = 2
+    now_m = 1000
+    def rec():
+        return "%d %d %d %d %d %d %d" % (now_m, rng2.randrange(10 ** 9), now_m + 1000, 0, rng2.randrange(1, 10 ** 7), rng2.choice([1000, 50000, 0]), rng2.randrange(3))
+    script.append("W %d %s" % (gen, rec()))
+    script.append("O")
+    n_calls = 0
+    for _ in range(3000 if q else 60000):
+        c = rng2.randrange(12)
+        now_m += rng2.choice([0, 0, 1, 1, 3, 7, 1200])
+        if c < 3:
+            gen = gen + 2 if gen % 2 == 0 else gen + 1
+            if gen > 65535:
+                gen = 2
+            script.append("W %d %s" % (gen, rec()))
+        elif c == 3:
+            script.append("G %d" % (gen | 1))          # an update is in flight
+            gen |= 1
+        elif c == 4:
+            script.append("V 0")                        # the daemon is re-initialising the segment
+            script.append("N %d %d %d %d" % (1700000000 + now_m, 5, now_m, rng2.randrange(10 ** 9)))
+            script.append("V 1")
+            n_calls += 1
+        elif c == 5:
+            script.append("G 0")
+            script.append("N %d %d %d %d" % (1700000000 + now_m, 5, now_m, rng2.randrange(10 ** 9)))
+            script.append("G %d" % gen)
+            n_calls += 1
+        elif c == 6:
+            script.append("O")                          # a client (re)attaches in whatever state this is
+        elif c == 7:
+            script.append("C")
+            script.append("O")
+        else:
+            script.append("N %d %d %d %d" % (1700000000 + now_m, rng2.randrange(10 ** 9), now_m + rng2.choice([0, 0, 2, 6, 1001]), rng2.randrange(10 ** 9)))
+            n_calls += 1
+    sp = os.path.join(ctx.tmp, "script.txt")
+    with open(sp, "w") as f:
+        f.write("\n".join(script) + "\n")
+    shm_r = "/dev/shm/cbverif-c17s-r-%d" % os.getpid()
+    shm_c = "/dev/shm/cbverif-c17s-c-%d" % os.getpid()
+    pr = subprocess.run([csim, "script", "--script", sp, "--shm", shm_r], stdout=subprocess.PIPE, stderr=subprocess.PIPE, text=True, timeout=600)
+    pc = subprocess.run([cdrv, "script", sp, shm_c], stdout=subprocess.PIPE, stderr=subprocess.PIPE, text=True, timeout=600, env=dict(ctx.env, ASAN_OPTIONS="halt_on_error=1:detect_leaks=1"))
+    for pth in (shm_r, shm_c):
+        try:
+            os.unlink(pth)
+        except OSError:
+            pass
+    lr, lc = pr.stdout.splitlines(), pc.stdout.splitlines()
+    stateful = {"script_lines": len(script), "calls": n_calls, "rust_answers": len(lr), "c_answers": len(lc)}
+    if pr.returncode or pc.returncode or len(lr) != len(lc):
+        viol.append({"sig": "stateful-parity-run", "detail": "script run: rust rc=%d (%d lines), C rc=%d (%d lines): %s" % (pr.returncode, len(lr), pc.returncode, len(lc), (pc.stderr or pr.stderr)[-300:]), "replay": ""})
+    else:
+        for k, (x, y) in enumerate(zip(lr, lc)):
+            if x != y:
+                rp = os.path.join(ctx.replay_dir, "C17-script-%d.txt" % ctx.seed)
+                shutil_copy = __import__("shutil").copy
+                shutil_copy(sp, rp)
+                viol.append({"sig": "stateful-parity", "detail": "answer #%d of the script differs: Rust client '%s', C library '%s'" % (k, x, y), "replay": rp})
+                break
+    ctx.log("stateful parity script: %s" % stateful)
+
     # 4a. layout after daemon start-up over pre-existing files: whatever was there, once the daemon
     # has started and published, the bytes must be the documented layout (72-byte segment, size field
     # covering it, the published record at the documented offsets), readable by new clients.
@@ -188,6 +254,7 @@ def run(ctx):
         "static_lib": info,
         "shared_lib": info_so,
         "error_parity_cases": err_cases,
+        "stateful_parity": stateful,
         "layout_after_startup": lstats,
         "valgrind": vg_info,
         "daemon_written_segment": daemon_file,
